@@ -286,7 +286,7 @@ def realsig_events(ctx):
     ev = []
     k = _K.new_key('ed25519')
     pub = pgpy.PGPKey.from_blob(bytes(k.pubkey))[0]
-    lens = [13, 100, 190, 191, 192, 193, 255, 256, 8382, 8383, 8384, 8385, 9000, 12345, 16318, 16319, 16320, 16321, 20000] + ([] if ctx.quick else [65535, 65536, 70000])
+    lens = [13, 100, 190, 191, 192, 193, 255, 256, 8382, 8383, 8384, 8385, 9000, 12345, 16318, 16319, 16320, 16321, 20000, 65400, 70000] + ([] if ctx.quick else [65535, 65536])      # (beyond what a two-octet area length can hold: refused, or malformed)
     for L in lens:
         vlen = L - 12                                   # type (1) + flags (4) + two lengths (4) + name 'n@x' (3) + value
         with warnings.catch_warnings():
